@@ -733,3 +733,26 @@ UNITS["v_reported_paths"] = dict(
              safety_id="C16.targets.safety"),
     ],
 )
+
+# ------------------------------------------------------------------------------------------------
+UNITS["v_assign_types"] = dict(
+    prop=["C08", "C12"], tier="q", prelude=["assigntypes.rs"],
+    fns=[dict(
+        id="variant_type_info", file=EXPR + "assignment.rs", impl="impl<U> Expression for Variant<Target, U>", name="type_info",
+        orig_sig="fn type_info(&self, state: &TypeState) -> TypeInfo",
+        wrap=("impl Variant {", "}"), sig="pub fn type_info(&self, state: &TypeState) -> (r: TypeInfo)",
+        rewrites=[dict(**{"from": "TypeDef::from(default.kind())", "to": "TypeDef::from_kind(default.kind())", "count": 1, "why": "From<Kind> for TypeDef"}),
+                  dict(**{"from": "TypeDef::from(Kind::bytes().or_null())", "to": "TypeDef::from_kind(kind_bytes_or_null())", "count": 1, "why": "From<Kind> for TypeDef; the bytes|null kind is opaque"})],
+        ensures=[
+            ("C08.assign.default_in_ok_type", "`ok, err = e`: the type recorded for ok admits the stored default value (it is the type of e united with the default's kind), so the default written on failure belongs to ok's reported type",
+             "self is Infallible ==> r.state.writes@.len() >= 2 && r.state.writes@[r.state.writes@.len() - 2].target == self->Infallible_ok.id@ && members(r.state.writes@[r.state.writes@.len() - 2].type_def).contains(value_member(self->Infallible_default))"),
+            ("C08.assign.ok_type_covers_expr", "the type recorded for ok also admits every value e itself can produce",
+             "self is Infallible ==> members(self->Infallible_expr.spec_type(*state)).subset_of(members(r.state.writes@[r.state.writes@.len() - 2].type_def))"),
+            ("C08.assign.err_target_recorded", "err is recorded last, without a constant",
+             "self is Infallible ==> r.state.writes@.last().target == self->Infallible_err.id@ && r.state.writes@.last().constant is None"),
+            ("C12.assign.records_rhs_constant", "`target = e` records exactly the constant the compiler derives for e (in the state after e's own effects) and e's type",
+             "self is Single ==> r.state.writes@.len() >= 1 && r.state.writes@.last().target == self->Single_target.id@ && members(r.state.writes@.last().type_def) == members(self->Single_expr.spec_type(*state))"),
+        ],
+        safety_id="C08.variant_type_info.safety",
+    )],
+)
